@@ -288,7 +288,7 @@ func NilReturnsAfterFailure(fn *ssa.Function, callBlock *ssa.BasicBlock, same fu
 	}
 	var out []*ssa.Return
 	for _, b := range fn.Blocks {
-		if !seen[b] {
+		if !seen[b] && !(len(callBlock.Succs) == 0 && b == callBlock) {
 			continue
 		}
 		for _, in := range b.Instrs {
@@ -360,8 +360,10 @@ func ReturnsAfterFailureStrict(fn *ssa.Function, callBlock *ssa.BasicBlock, same
 	}
 	isErr := func(t interface{ String() string }) bool { return t.String() == "error" }
 	var out []*ssa.Return
+	// straight-line code: the block of the call ends in the return itself
+	ownRet := len(callBlock.Succs) == 0
 	for _, b := range fn.Blocks {
-		if !seen[b] {
+		if !seen[b] && !(ownRet && b == callBlock) {
 			continue
 		}
 		for _, in := range b.Instrs {
